@@ -285,10 +285,16 @@ impl World {
                     .unwrap();
             }
         }
-        // a whale close to u128::MAX in XTOK (overflow cases)
+        // whales in XTOK (overflow cases): r1 close to u128::MAX, a4 exactly u128::MAX
         state
             .put_account_balance(&[0xe1u8; 20], &denom(XTOK), u128::MAX - 1000)
             .unwrap();
+        let a4 = self.name_addr["a4"];
+        self.fixture
+            .state_mut()
+            .put_account_balance(&a4, &denom(XTOK), u128::MAX)
+            .unwrap();
+        let state = self.fixture.state_mut();
         state.put_allowed_fee_asset(&denom(UTIA)).unwrap();
         for a in [UTIA, UOSMO] {
             let Denom::TracePrefixed(t) = denom(a) else { unreachable!() };
@@ -1455,8 +1461,8 @@ fn driver() {
             trace.line(&format!("ledger {op} => {res}"));
         }
         let thorough = common::is_thorough();
-        let sessions = if thorough { 40 } else { 6 };
-        let blocks = if thorough { 40 } else { 14 };
+        let sessions = if thorough { 60 } else { 12 };
+        let blocks = if thorough { 40 } else { 16 };
         for s in 0..sessions {
             let variant = if s % 3 == 2 { "legacy" } else { "std" };
             run_generated(&mut world, &mut trace, seed.wrapping_add(s as u64 * 7919), variant, blocks).await;
